@@ -42,6 +42,25 @@ const c06DocText = `{"an":[3,1,2,1],"as":["b","a","c"],"ao":[{"n":2,"s":"b","an"
 "aa":[[2,1],[4,3],[]],"am":[1,"a",null,[2]],"o":{"n":1,"s":"x","an":[9,8],"as":["q","p"],"o":{"n":2},"ao":[{"n":2},{"n":1}]},"o2":{"s":"y","z":null,"n":7},"s":"héllo","t":"lo","n":-1.5,"m":2,"b":true,"z":null,
 "mixed":[{"k":2,"i":0},{"k":1,"i":1},{"k":"x","i":2},{"k":3,"i":3}]}`
 
+// c06BaseDoc is the base document of C06 / C12 / C13: c06DocText plus arrays long enough (24
+// elements, with tied keys) to pass any "small input" fast path of the sorting functions.
+func c06BaseDoc() map[string]interface{} {
+	d := docs.J(c06DocText).(map[string]interface{})
+	big := make([]interface{}, 24)
+	bign := make([]interface{}, 24)
+	bigs := make([]interface{}, 24)
+	words := []string{"pear", "fig", "apple", "kiwi", "date", "lime", "é", "plum"}
+	for i := range big {
+		n := float64((i * 7) % 5)
+		w := words[(i*5)%len(words)]
+		big[i] = map[string]interface{}{"n": n, "s": w, "i": float64(i)}
+		bign[i] = float64((i*11)%9) - 3
+		bigs[i] = w + string(rune('a'+i%3))
+	}
+	d["big"], d["bign"], d["bigs"] = big, bign, bigs
+	return d
+}
+
 var c06Field = map[gen.Want][]string{
 	gen.WNumber: {"n", "m"}, gen.WString: {"s", "t"}, gen.WBool: {"b"}, gen.WNull: {"z"},
 	gen.WArrNum: {"an"}, gen.WArrStr: {"as"}, gen.WArrObj: {"ao"}, gen.WArrArr: {"aa"}, gen.WArray: {"am", "an", "ao"}, gen.WObject: {"o", "o2"}, gen.WAny: {"an", "o", "s", "ao"},
@@ -161,6 +180,13 @@ func c06Specials() []*gen.Expr {
 		gen.Func("reverse", gen.Func("sort_by", gen.Field("ao"), n)),
 		gen.Func("join", gen.Raw(","), gen.Func("sort", gen.Field("as"))),
 		gen.Func("max_by", gen.Field("ao"), gen.ExpRef(gen.Func("length", gen.Func("sort", gen.Field("an"))))),
+		// long arrays (24 elements, tied keys)
+		gen.Func("sort_by", gen.Field("big"), n), gen.Func("sort_by", gen.Field("big"), s), gen.Func("max_by", gen.Field("big"), n), gen.Func("min_by", gen.Field("big"), s),
+		gen.Func("sort", gen.Field("bign")), gen.Func("sort", gen.Field("bigs")), gen.Func("reverse", gen.Field("big")), gen.Func("map", n, gen.Field("big")),
+		gen.Chain(gen.Field("big"), gen.StFilter(gen.Cmp(">", gen.Field("n"), gen.LitJSON("1"))), gen.StField("s")), gen.Func("sort", gen.Chain(gen.Field("big"), gen.StListStar(), gen.StField("n"))),
+		gen.Func("join", gen.Raw(","), gen.Field("bigs")), gen.Func("sum", gen.Field("bign")), gen.Chain(gen.Func("sort_by", gen.Field("big"), n), gen.StListStar(), gen.StField("i")),
+		gen.MultiHash([]gen.Key{{Name: "byn"}, {Name: "bys"}}, []*gen.Expr{gen.Chain(gen.Func("sort_by", gen.Field("big"), n), gen.StListStar(), gen.StField("i")), gen.Chain(gen.Func("sort_by", gen.Field("big"), s), gen.StListStar(), gen.StField("i"))}),
+		gen.Func("sort_by", gen.Func("sort_by", gen.Field("big"), s), n), gen.Func("max", gen.Field("bign")), gen.Func("min", gen.Field("bigs")), gen.Chain(gen.Field("big"), gen.StSliceS("", "", "-1")),
 	}
 }
 
@@ -257,7 +283,7 @@ func c06(r *mon.Run) {
 	if rl == nil {
 		r.Inconclusive("no race log: started without the driver (VH_RACELOG); only value-changing writes are observable")
 	}
-	base := docs.J(c06DocText).(map[string]interface{})
+	base := c06BaseDoc()
 	var trees []*gen.Expr
 	var frozen []bool
 	for _, lit := range []bool{false, true} {
